@@ -5,6 +5,7 @@
 From stdpp Require Import gmap strings.
 From EV Require Import Base.Str Model.Value Model.Adapt Model.Keyspace Model.Reply Model.Prog.
 From EV Require Import Model.ZSetOps Model.ZSetMulti Model.CmdZSet.
+From EV Require Model.CmdZRand.
 From EV Require Import Model.TableTypes Model.KeyFuncs.
 From EV Require Import Proofs.KeyspaceLemmas Proofs.ProgLemmas Proofs.KeyCover Proofs.KeyCoverCmds.
 Local Open Scope Z_scope.
@@ -424,4 +425,12 @@ Proof.
   - apply kc_zdiff.
   - pose proof (kc_zdiffstore argv) as H. revert H. kx_name. done.
   - apply kc_zmpop.
+Qed.
+
+(** * ZRANDMEMBER (any selection function): reads its one key, writes nothing *)
+Lemma kc_zrand pick name h argv :
+  CmdZRand.zrand_handler pick name = Some h -> kx_within (key_extract name "" argv) (h argv).
+Proof.
+  unfold CmdZRand.zrand_handler, CmdZRand.handle_zrandmember. revert argv. handler_cases.
+  zsingle 5%nat ltac:(unfold CmdZRand.decode_zrandmember in Hd).
 Qed.
